@@ -1,4 +1,254 @@
-//! engine `meta` (stub)
-pub fn run(_fields: &[&str]) -> String {
-    "unimplemented".to_string()
+//! engine `meta` (C19): encoding indicators observed through the public API.
+//!
+//! `meta<TAB>extract<TAB><content bytes hex>`
+//!     parses `<meta http-equiv=content-type content="…">` (content given as an attribute value, the
+//!     tokenizer is fed the document text built around it) with Tokenizer+TreeBuilder+RcDom and prints
+//!     the label of the first `TokenizerResult::EncodingIndicator`:  `some <hex bytes>` | `none`.
+//!     The content string must be valid UTF-8 without NUL (the tokenizer would alter it before it
+//!     reaches encoding.rs) — otherwise `bad-case`; `"`, `&`, CR are sent as character references.
+//! `meta<TAB>doc<TAB><ctx><TAB><chunks>`
+//!     ctx = `-` (document) or a fragment context `html:select`, `svg:svg`, …; chunks = UTF-8 bytes in
+//!     hex, `|`-separated.  Feeds chunk by chunk, re-feeding after every suspension.  Output:
+//!     `I:<label hex>:<n>;…;T=<tree dump>;E=<#parse errors>` where n = number of HTML `meta` elements in
+//!     the tree at that moment whose charset attribute equals the label or whose content attribute
+//!     contains it.  Then ` ## ` and the same for a run through `Parser::one` (driver ignoring
+//!     indicators): `T=<tree dump>;E=<n>`.
+use crate::proto::*;
+use html5ever::buffer_queue::BufferQueue;
+use html5ever::tendril::{StrTendril, TendrilSink};
+use markup5ever::TokenizerResult;
+use html5ever::{driver, ns, Attribute, LocalName, Namespace, QualName};
+use markup5ever_rcdom::{Handle, NodeData, RcDom};
+
+pub fn esc(s: &str) -> String {
+    let mut o = String::new();
+    for c in s.chars() {
+        if c.is_ascii_alphanumeric() || matches!(c, '_' | ':' | '.' | '-') {
+            o.push(c);
+        } else {
+            o.push_str(&format!("%{:x};", c as u32));
+        }
+    }
+    o
+}
+
+fn ns_short(ns: &Namespace) -> String {
+    match &**ns {
+        "http://www.w3.org/1999/xhtml" => "html".into(),
+        "http://www.w3.org/2000/svg" => "svg".into(),
+        "http://www.w3.org/1998/Math/MathML" => "math".into(),
+        "http://www.w3.org/1999/xlink" => "xlink".into(),
+        "http://www.w3.org/XML/1998/namespace" => "xml".into(),
+        "http://www.w3.org/2000/xmlns/" => "xmlns".into(),
+        "" => "".into(),
+        other => esc(other),
+    }
+}
+
+/// canonical one-line dump of an RcDom subtree: space separated tokens
+/// `<ns|name a=v …>` … `</>`, `"text"`, `<!--c-->`, `<!doctype,pub,sys>`, `<?target,data>`, `{` template contents `}`
+pub fn dump(h: &Handle, out: &mut Vec<String>) {
+    match &h.data {
+        NodeData::Document => {
+            out.push("#doc".into());
+            for c in h.children.borrow().iter() {
+                dump(c, out);
+            }
+        },
+        NodeData::Doctype {
+            name,
+            public_id,
+            system_id,
+        } => out.push(format!("<!{},{},{}>", esc(name), esc(public_id), esc(system_id))),
+        NodeData::Text { contents } => out.push(format!("\"{}\"", esc(&contents.borrow()))),
+        NodeData::Comment { contents } => out.push(format!("<!--{}-->", esc(contents))),
+        NodeData::ProcessingInstruction { target, contents } => {
+            out.push(format!("<?{},{}>", esc(target), esc(contents)))
+        },
+        NodeData::Element {
+            name,
+            attrs,
+            template_contents,
+            ..
+        } => {
+            let mut s = format!("<{}|{}", ns_short(&name.ns), esc(&name.local));
+            for a in attrs.borrow().iter() {
+                let an = if a.name.ns == ns!() {
+                    esc(&a.name.local)
+                } else {
+                    format!("{{{}}}{}", ns_short(&a.name.ns), esc(&a.name.local))
+                };
+                s.push_str(&format!(" {}={}", an, esc(&a.value)));
+            }
+            s.push('>');
+            out.push(s);
+            if let Some(tc) = template_contents.borrow().as_ref() {
+                out.push("{".into());
+                for c in tc.children.borrow().iter() {
+                    dump(c, out);
+                }
+                out.push("}".into());
+            }
+            for c in h.children.borrow().iter() {
+                dump(c, out);
+            }
+            out.push("</>".into());
+        },
+    }
+}
+
+pub fn dump_dom(dom: &RcDom) -> String {
+    let mut v = vec![];
+    dump(&dom.document, &mut v);
+    v.join(" ")
+}
+
+fn count_meta(h: &Handle, label: &str) -> usize {
+    let mut n = 0;
+    if let NodeData::Element {
+        name,
+        attrs,
+        template_contents,
+        ..
+    } = &h.data
+    {
+        if name.ns == ns!(html) && &*name.local == "meta" {
+            let hit = attrs.borrow().iter().any(|a| {
+                a.name.ns == ns!()
+                    && ((&*a.name.local == "charset" && &*a.value == label)
+                        || (&*a.name.local == "content" && a.value.contains(label)))
+            });
+            if hit {
+                n += 1;
+            }
+        }
+        if let Some(tc) = template_contents.borrow().as_ref() {
+            n += count_meta(tc, label);
+        }
+    }
+    for c in h.children.borrow().iter() {
+        n += count_meta(c, label);
+    }
+    n
+}
+
+fn parse_ctx(ctx: &str) -> Option<Option<QualName>> {
+    if ctx == "-" {
+        return Some(None);
+    }
+    let (n, l) = ctx.split_once(':')?;
+    let ns = match n {
+        "html" => ns!(html),
+        "svg" => ns!(svg),
+        "math" => ns!(mathml),
+        _ => return None,
+    };
+    Some(Some(QualName::new(None, ns, LocalName::from(l))))
+}
+
+fn new_parser(ctx: &Option<QualName>) -> driver::Parser<RcDom> {
+    match ctx {
+        None => driver::parse_document(RcDom::default(), Default::default()),
+        Some(q) => driver::parse_fragment(
+            RcDom::default(),
+            Default::default(),
+            q.clone(),
+            Vec::<Attribute>::new(),
+            false,
+        ),
+    }
+}
+
+/// feed chunks by hand, resuming after each suspension; returns (events, dom)
+fn run_manual(ctx: &Option<QualName>, chunks: &[String]) -> (Vec<String>, RcDom) {
+    let parser = new_parser(ctx);
+    let tok = &parser.tokenizer;
+    let input: &BufferQueue = &parser.input_buffer;
+    let mut events = vec![];
+    let mut guard = 0usize;
+    for c in chunks {
+        input.push_back(StrTendril::from_slice(c));
+        loop {
+            guard += 1;
+            if guard > 100_000 {
+                panic!("feed does not make progress");
+            }
+            match tok.feed(input) {
+                TokenizerResult::Done => break,
+                TokenizerResult::Script(_) => {},
+                TokenizerResult::EncodingIndicator(label) => {
+                    let n = count_meta(&tok.sink.sink.document, &label);
+                    events.push(format!("I:{}:{}", show_bytes(label.as_bytes()), n));
+                },
+            }
+        }
+    }
+    assert!(input.is_empty(), "input left after Done");
+    tok.end();
+    let dom = parser.tokenizer.sink.sink;
+    (events, dom)
+}
+
+fn run_doc(fields: &[&str]) -> String {
+    let Some(ctx) = parse_ctx(fields[0]) else {
+        return "bad-case".into();
+    };
+    let mut chunks = vec![];
+    for c in fields[1].split('|') {
+        let Some(b) = parse_bytes(c) else {
+            return "bad-case".into();
+        };
+        let Ok(s) = String::from_utf8(b) else {
+            return "bad-case".into();
+        };
+        chunks.push(s);
+    }
+    let (events, dom) = run_manual(&ctx, &chunks);
+    let whole: String = chunks.concat();
+    let dom2 = new_parser(&ctx).one(StrTendril::from_slice(&whole));
+    let mut parts = events;
+    parts.push(format!("T={}", dump_dom(&dom)));
+    parts.push(format!("E={}", dom.errors.borrow().len()));
+    format!(
+        "{} ## T={};E={}",
+        parts.join(";"),
+        dump_dom(&dom2),
+        dom2.errors.borrow().len()
+    )
+}
+
+fn run_extract(content: &[u8]) -> String {
+    let Ok(s) = std::str::from_utf8(content) else {
+        return "bad-case".into();
+    };
+    if s.contains('\0') {
+        return "bad-case".into();
+    }
+    // `"`, `&` and CR travel as character references (decoded by the tokenizer in attribute values)
+    let s = s
+        .replace('&', "&amp;")
+        .replace('"', "&quot;")
+        .replace('\r', "&#13;");
+    let doc = format!("<meta http-equiv=content-type content=\"{}\">", s);
+    let (events, _dom) = run_manual(&None, &[doc]);
+    match events.first() {
+        None => "none".into(),
+        Some(e) => {
+            // "I:<hex>:<n>"
+            let mut it = e.splitn(3, ':');
+            it.next();
+            format!("some {}", it.next().unwrap_or("?"))
+        },
+    }
+}
+
+pub fn run(fields: &[&str]) -> String {
+    match fields {
+        ["extract", hex] => match parse_bytes(hex) {
+            Some(b) => run_extract(&b),
+            None => "bad-case".into(),
+        },
+        ["doc", ctx, chunks] => run_doc(&[ctx, chunks]),
+        _ => "bad-case".into(),
+    }
 }
